@@ -160,6 +160,7 @@ func runReport(prop string, t *simrt.Tape, keep bool) simrt.Outcome {
 	base := time.Unix(1700000000, 0).Add(time.Duration(t.Choose(1000000000)))
 	errTexts := []string{"", "", "500 Internal Server Error", "Get \"http://x\": EOF", "timeout", "404 Not Found"}
 	rs := make([]vegeta.Result, n)
+	byteless := t.Prob(1, 6)
 	for i := range rs {
 		l := lat[i]
 		if prop == "C12" && t.Prob(1, 2) {
@@ -199,6 +200,18 @@ func runReport(prop string, t *simrt.Tape, keep bool) simrt.Outcome {
 			e = []string{"", errTexts[2+t.Choose(4)]}[t.Choose(2)]
 		}
 		rs[i] = vegeta.Result{Attack: "a", Seq: uint64(i), Code: code, Timestamp: ts, Latency: time.Duration(l), BytesIn: uint64(t.Choose(100000)), BytesOut: uint64(t.Choose(5000)), Error: e}
+		if byteless && t.Prob(3, 4) {
+			// most results moved no bytes in one direction or in both (failed dials, HEAD and 204 responses): the
+			// totals stand still over long stretches while the request count grows
+			switch t.Choose(3) {
+			case 0:
+				rs[i].BytesIn = 0
+			case 1:
+				rs[i].BytesOut = 0
+			default:
+				rs[i].BytesIn, rs[i].BytesOut = 0, 0
+			}
+		}
 	}
 	ref := reference(rs)
 	r.shape = shape
@@ -804,7 +817,7 @@ func checkHistogram(r *run, h *vegeta.Histogram, rs []vegeta.Result, added []int
 var unitForms = []struct {
 	suffix string
 	unit   time.Duration
-}{{"ns", time.Nanosecond}, {"us", time.Microsecond}, {"µs", time.Microsecond}, {"ms", time.Millisecond}, {"s", time.Second}, {"m", time.Minute}, {"h", time.Hour}}
+}{{"ns", time.Nanosecond}, {"us", time.Microsecond}, {"µs", time.Microsecond}, {"μs", time.Microsecond}, {"ms", time.Millisecond}, {"s", time.Second}, {"m", time.Minute}, {"h", time.Hour}}
 
 func checkBucketSpec(r *run, t *simrt.Tape) {
 	nb := 1 + t.Choose(8)
